@@ -790,3 +790,46 @@ def run_cvc5(smt2, timeout_s=60, logic=None):
     if first == 'unsat': return 'unsat', dt
     if first == 'sat': return 'sat', dt
     return 'unknown', dt
+
+class FPPathController(PathController):
+    """path controller for the bit-precise mode: no pruning (both sides of every symbolic branch are explored);
+    feasibility of each path is decided by cbmc together with the obligation (assume(pc))."""
+    def __init__(self, max_paths=256):
+        PathController.__init__(self, None, 0, max_paths)
+        self.use_sampling = False
+
+    def begin_path(self, prefix):
+        self.prefix = prefix
+        self.pos = 0
+        self.trace = []
+        self.pc = []
+        for a in self.assumptions:
+            self.pc.append(a)
+
+    def _assert(self, node):
+        self.pc.append(node)
+
+    def assume(self, node, it=None):
+        self.pc.append(node)
+
+    def decide(self, cond, it):
+        if self.pos < len(self.prefix):
+            d = self.prefix[self.pos]
+            self.pos += 1
+            self.trace.append(d)
+            self.pc.append(cond if d.taken else S.bnot(cond))
+            return d.taken
+        self.pos += 1
+        self.stats['forks'] += 1
+        self.worklist.append(list(self.trace) + [Decision(False, False)])
+        self.trace.append(Decision(True, False))
+        self.pc.append(cond)
+        return True
+
+    def sign_of(self, x, it):
+        return 0
+
+    def concretize(self, v, it):
+        raise Unsupported('symbolic integer used as address/index in bit-precise mode at %s' % it.where())
+
+    def note_division(self, b, it): pass
